@@ -41,8 +41,8 @@ func (h Handler) Version(ctx context.Context, _ *emptypb.Empty) (*gen.VersionRep
 }
 
 func (h Handler) Tx(server gen.KV_TxServer) error {
-	dbTx := h.db.NewIndexedBatch()
-	tx := newTx(dbTx)
+	// one point-in-time view for the whole transaction: db/remote hands it out as a db.Snapshot
+	tx := newTx(h.db.NewSnapshot())
 
 	for {
 		var (
